@@ -320,7 +320,7 @@ def _workbook_words(shape, only=None):
     return words
 
 
-def observe(text, shape, entry, only=None, loader=None):
+def observe(text, shape, entry, only=None, loader=None, scan=True):
     """-> {'symptoms': {symptom: detail}, 'skeleton': str|None, 'checked': int}"""
     from excel2pycl import Cell, Executor
     sym, checked = {}, 0
@@ -383,7 +383,7 @@ def observe(text, shape, entry, only=None, loader=None):
         got = lib.call_catch(lambda: ex.get_cell(Cell(shape['titles'][0], 'A', '1')).value)
         if not (entry and shape.get('entry')) and (0, 'A', 1) in expected and got != expected[(0, 'A', 1)]:
             sym.setdefault('value_differs', f'Cell({shape["titles"][0]!r}, "A", "1") -> {got!r}, expected {expected[(0, "A", 1)]!r}')
-    for i in range(len(shape['titles'])):
+    for i in range(len(shape['titles']) if scan else 0):
         lib.call_catch(ex.get_sheet, i)
     if _canary():
         sym['code_executed'] = 'canary (builtins.%s) set while the cells were evaluated' % CANARY
@@ -807,10 +807,10 @@ def seq_class_file(texts, tmpdir):
 
 
 def seq_boundaries(texts, tmpdir, tier):
-    """texts at row 150 / 1100, column AAA (703) / XFD, in a 1200-cell criteria range"""
+    """texts at row 150 / 1100, column AAA (703) / BCD (1434), in a 1200-cell criteria range"""
     from excel2pycl import Cell
     fails, n = [], 0
-    spots = [('A', 150), ('AAA', 1), ('AB', 101)] + ([('A', 1100), ('XFD', 2)] if tier == 'thorough' else [])
+    spots = [('A', 150), ('AAA', 1), ('AB', 101)] + ([('A', 1100), ('BCD', 2)] if tier == 'thorough' else [])
     for k, s in enumerate(texts):
         if not applicable('const', s):
             continue
@@ -825,7 +825,7 @@ def seq_boundaries(texts, tmpdir, tier):
                 fails.append(('C07.api.boundaries.code_executed', f'text {s!r} at {spots}: canary set during translation'))
             if isinstance(t, codec.Raised):
                 continue
-            o = observe(t, shape, entry)
+            o = observe(t, shape, entry, scan=False)
             n += o['checked']
             for symptom in SYMPTOMS:
                 if symptom in o['symptoms']:
@@ -878,7 +878,7 @@ def sweep_api(tier, seed):
                       'set_cells of a constant, a criteria cell, the blank cell AB200 beyond the used range and a cell of a second sheet, read '
                       f'back through {len(OVERRIDE_FORMULAS)} formulas (reference, &, LEFT, CONCATENATE, IFERROR, cross-sheet; COUNTIFS / SUMIF '
                       '/ SUMIFS / VALUE / SEARCH / MATCH / VLOOKUP under the canary), translation with safety on and off; (c) write_translation '
-                      '+ set_executed_class(class_file=); (d) texts at A150, AB101, AAA1 (A1100, XFD2 in thorough) and in every 7th cell of a '
+                      '+ set_executed_class(class_file=); (d) texts at A150, AB101, AAA1 (A1100, BCD2 in thorough) and in every 7th cell of a '
                       '1200-cell COUNTIFS range, whole file and entry point',
              'rule': 'one evaluation = one cell value compared with the text (or evaluated under the canary when the statement fixes no value), '
                      'or one get_titles() comparison; refused workbooks are not counted',
